@@ -149,7 +149,7 @@ type mstream struct {
 	mayDefer     bool
 	released     bool
 	release      chan struct{}
-	noHandler    bool // model: a handler must never run for this stream
+	noHandler    bool  // model: a handler must never run for this stream
 	decl         int64 // declared content-length, -1 if none
 	body         int64 // DATA payload octets (padding excluded) sent on the open stream so far
 	sawPadded    bool
